@@ -25,6 +25,7 @@ type Clause struct {
 type LoopSpec struct {
 	Ordinal    int
 	Invariants []*Clause
+	Assumes    []*Clause // assumed at the loop head, never checked (reported)
 	Decreases  *Clause
 	Unroll     int
 }
@@ -511,8 +512,12 @@ func (cs *Contracts) loadFile(path, pkgPath string) error {
 			if err != nil {
 				return err
 			}
+			if curLoop != nil {
+				curLoop.Assumes = append(curLoop.Assumes, c)
+				break
+			}
 			if curLock == nil {
-				return fmt.Errorf("%s:%d: assume outside lock", path, l.line)
+				return fmt.Errorf("%s:%d: assume outside lock/loop", path, l.line)
 			}
 			curLock.Assumes = append(curLock.Assumes, c)
 		case "trusted":
